@@ -10,6 +10,10 @@
      Y <a> <rules> <tags>  deep copy through a scripted json_c_shallow_copy_fn (see
                       harness/drv_eq.c for the rule language); the script is turned into the
                       two oracles of [deep_copy_cb] (answers, nodes carrying userdata)
+     B <a> <conds> <mut>   the source borrows the names of the members selected by conds from
+                      caller buffers (JSON_C_OBJECT_ADD_CONSTANT_KEY); deep copy; storage of
+                      the copy's names against the source's and the caller's; the caller
+                      overwrites, then frees its buffers; the copy observed after each step
    mut = <path>:<op>, path = (/i<idx> | /k<hexkey|->)*,
    op = A<jv> | P<hexkey|->=<jv> | K<hexkey|-> | I<dec> | U<dec> | B<0|1> | S<hex|-> | D<16hex>
       | Z<idx>=<jv> (array_put_idx) | X<idx>,<count> (array_del_idx).
@@ -112,6 +116,43 @@ let env_of rules tags : cb_env =
         | 'F' | 'G' -> CbError | '2' | 'T' -> CbComplete | _ -> CbCreated);
     cb_tagged = (fun h c -> eval_tagged tags (List.length h) c) }
 
+let eval_conds (conds : string) n c : bool =
+  conds <> "-" && List.exists (fun cond -> cond_match cond n c) (String.split_on_char ';' conds)
+
+(* the source of a B case in memory: nodes numbered as the C builder numbers them, the
+   selected member names in caller buffers 0, 1, ...; returns the buffers with their contents *)
+let msource (conds : string) (a : jv) : mt * (int * z list) list * int =
+  let counter = ref 0 and addr = ref 0 and bufs = ref [] in
+  let fresh () = let x = !addr in incr addr; z_of_int x in
+  let rec go (v : jv) (depth : int) : mt =
+    match v with
+    | JNull -> MNull
+    | JArr l -> incr counter; let me = fresh () in
+      let kids = List.fold_left (fun acc x -> go x (depth + 1) :: acc) [] l in MArr (me, List.rev kids)
+    | JObj l -> incr counter; let me = fresh () in
+      let kids = List.fold_left (fun acc (k, x) ->
+          let no = (match x with JNull -> -1 | _ -> !counter) in
+          let x' = go x (depth + 1) in
+          let call = { c_src = x; c_parent = Some v; c_key = Some k; c_idx = None; c_depth = z_of_int (depth + 1) } in
+          let st = if eval_conds conds no call
+            then (let b = List.length !bufs in bufs := (b, k) :: !bufs; KBorrowed (z_of_int b))
+            else KOwn (fresh ()) in
+          ((k, st), x') :: acc) [] l in
+      MObj (me, List.rev kids)
+    | JBool b -> incr counter; MLeaf (fresh (), LBool b)
+    | JInt x -> incr counter; MLeaf (fresh (), LInt x)
+    | JUint x -> incr counter; MLeaf (fresh (), LUint x)
+    | JDouble (b, t) -> incr counter; MLeaf (fresh (), LDouble (b, t))
+    | JStr x -> incr counter; MLeaf (fresh (), LStr x) in
+  let t = go a 0 in
+  (t, List.rev !bufs, !addr)
+
+let rec count_members (v : jv) : int =
+  match v with
+  | JArr l -> List.fold_left (fun n x -> n + count_members x) 0 l
+  | JObj l -> List.fold_left (fun n (_, x) -> n + 1 + count_members x) 0 l
+  | _ -> 0
+
 let inter a b = List.length (List.filter (fun x -> List.mem x b) a)
 
 let run line =
@@ -181,6 +222,30 @@ let run line =
         Printf.sprintf "K 0 %s %s %s %d %s %s %s %s 6 %s %s" (e ta tc) (e tc ta) (dump (erase tc)) (inter (addrs ta) (addrs tc))
           (oks_text og) (e ta tc) (e tc ta) (e ta tb) (e tc tb) (e tb tc) in
     String.concat " | " [head; k; "live=0"]
+  | ["B"; sa; conds; smut] ->
+    let a = Jvtext.jv_of_string sa in
+    let (src, bufs, n0) = msource conds a in
+    (match deep_copy_root a with
+     | None -> "B -1 EINVAL | live=0"
+     | Some _ ->
+       let (cpy, n1) = mt_copy src (z_of_int n0) in
+       let (tref, _) = build a n1 in
+       let e x y = b01 (nt_equal x y) in
+       let c = mt_erase cpy in
+       let ks = key_stores src and kc = key_stores cpy in
+       let kconst = List.length (List.filter (function KBorrowed _ -> true | KOwn _ -> false) kc) in
+       let head = Printf.sprintf "B 0 %s %s %s %s %d %d %d %d %d" (e (mt_nodes src) (mt_nodes cpy)) (e (mt_nodes cpy) (mt_nodes src))
+           (dump (mt_erase src)) (dump c) (List.length bufs)
+           (List.length (List.filter (function KBorrowed _ -> true | KOwn _ -> false) ks)) (inter kc ks) kconst kconst in
+       (* the caller overwrites its buffers in place *)
+       let flip k = match k with [] -> [] | x :: t -> (if int_of_z x = 90 then z_of_int 89 else z_of_int 90) :: t in
+       let src' = List.fold_left (fun t (b, k) -> kbuf_write (z_of_int b) (flip k) t) src bufs in
+       let cpy' = List.fold_left (fun t (b, k) -> kbuf_write (z_of_int b) (flip k) t) cpy bufs in
+       let nm = count_members a in
+       let obs t = Printf.sprintf "%s %d/%d %s %s 2" (dump (mt_erase t)) nm nm (e (mt_nodes t) tref) (e tref (mt_nodes t)) in
+       let (r, c') = (match mutate_at (fst (parse_mut smut)) (snd (parse_mut smut)) (mt_erase cpy') with
+           | Some v -> ("ok", v) | None -> ("bad", mt_erase cpy')) in
+       String.concat " | " [head; "I " ^ dump (mt_erase src') ^ " " ^ obs cpy'; "F 1 " ^ obs cpy'; "P " ^ r ^ " " ^ dump c'; "live=0"])
   | ["Y"; sa; rules; tags] ->
     let a = Jvtext.jv_of_string sa in
     let (r, h) = deep_copy_cb_root (env_of rules tags) a in
